@@ -120,9 +120,18 @@ def run(prop, tier, timeout=None, workers=16):
     witness_ok = None
     if witness:
         w = res[0]
+        if w['verdict'] == 'inconclusive':
+            # a time-out on a loaded machine says nothing about reachability: ask again, alone and with a longer budget
+            w = _one((modname, names[0][0], names[0][1], names[0][2], timeout * 4))
         witness_ok = w['verdict'] == 'counterexample'
         res = res[1:]
-        if not witness_ok:
+        if w['verdict'] == 'inconclusive':
+            # still undecided: nothing is claimed from CrossHair in this run (every shard counts as inconclusive)
+            witness_ok = None
+            for r in res:
+                if r['verdict'] == 'confirmed':
+                    r['verdict'], r['raw'] = 'inconclusive', 'reachability witness undecided (time-out): verdict not used'
+        elif not witness_ok:
             raise RuntimeError(f"CrossHair reachability witness {witness} was not refuted ({w['verdict']}): the conditions would pass vacuously\n{w['raw']}")
     for r in res:
         if r['verdict'] != 'counterexample':
